@@ -97,7 +97,7 @@ def run(ck: Check):
     rng = ck.rng
     thorough = ck.tier == "thorough"
     ck.rule(
-        "Gaussian streams with 0-2 mean shifts, constants, ramps (t <= 60 quick / 150 thorough), priors / variances / hazards on a grid incl. extreme hazards (1e-6, .999); at every step the "
+        "data_var assigned through its setter before use; level shifts of 40-100 sigma (50-digit reference); last values bisected to a 1e-7 log-probability margin between the two most probable run lengths; Gaussian streams with 0-2 mean shifts, constants, ramps (t <= 60 quick / 150 thorough), priors / variances / hazards on a grid incl. extreme hazards (1e-6, .999); at every step the "
         "run-length row is compared with the linear-space Adams-MacKay posterior recomputed non-incrementally (tolerance 1e-8 abs on probabilities), normalisation, the posterior-weighted "
         "prediction, and drift vs (arg max != t) unless the two largest probabilities are within 1e-9; one run of 1300 steps (2500 thorough) without reset checked at every step for row normalisation and the exact identity P(r_t=0)=hazard; also pairs of detectors built from ONE configuration object and updated alternately (one reset in mid-stream), each checked against the posterior of its own stream; non-trivial = the most probable run length is shorter than t at some step"
     )
@@ -126,6 +126,77 @@ def run(ck: Check):
         if ok and n <= 30:
             cases.append((DET, cfg, xs, None))
             impl.append(out)
+    # (a) data_var (the model's only public setter) assigned after the model object was constructed;
+    # (b) level shifts of 40-100 standard deviations (every predictive density underflows in linear space);
+    # (c) a last value placed by bisection so that a shorter run length beats the full one by ~1e-7 in log-probability
+    from frouros.detectors.concept_drift import BOCD as _BOCD, BOCDConfig as _BOCDConfig
+    from frouros.detectors.concept_drift.streaming.change_detection.bocd import GaussianUnknownMean as _GUM
+
+    def run_obj(det, xs):
+        out = []
+        for v in xs:
+            det.update(value=v)
+            out.append(DET.observe(det))
+        return out
+
+    for _ in range(6 if not thorough else 40):
+        cfg = gen_cfg(rng)
+        cfg["min_num_instances"] = rng.choice([1, 3])
+        n = rng.choice([8, 14])
+        sd = math.sqrt(cfg["data_var"])
+        xs = [rng.gauss(cfg["prior_mean"] if i < n // 2 else cfg["prior_mean"] + 3 * sd, sd) for i in range(n)]
+        m = _GUM(prior_mean=cfg["prior_mean"], prior_var=cfg["prior_var"], data_var=cfg["data_var"] * 3)
+        m.data_var = cfg["data_var"]  # the only parameter with a public setter
+        try:
+            out = run_obj(_BOCD(config=_BOCDConfig(model=m, hazard=cfg["hazard"], min_num_instances=cfg["min_num_instances"])), xs)
+        except Exception as e:  # noqa: BLE001
+            ck.violation(dict(clause="raises", scenario="setters"), dict(config=cfg, stream=xs, error=repr(e), scenario="model parameters assigned through the setters before use"))
+            continue
+        ok, short = check_trace(ck, cfg, xs, out, extra=dict(scenario="GaussianUnknownMean built with another data_var; data_var then assigned through its public setter before the detector was built"))
+        ck.case(dict(config=cfg, n=n, kind="model-setters"), nontrivial=short, key=repr(("set", cfg, xs)))
+        ck.count("model_setter_cases")
+    for _ in range(5 if not thorough else 30):
+        cfg = gen_cfg(rng)
+        cfg["hazard"] = rng.choice([0.01, 0.1])
+        cfg["min_num_instances"] = rng.choice([1, 5])
+        sd = math.sqrt(cfg["data_var"])
+        n = rng.choice([12, 24])
+        jump = rng.choice([40, 80, 100]) * sd * rng.choice([1, -1])
+        k = rng.randrange(n // 2, n - 2)
+        xs = [rng.gauss(cfg["prior_mean"], sd) for _ in range(k)] + [rng.gauss(cfg["prior_mean"] + jump, sd) for _ in range(n - k)]
+        out, exc, _ = run_impl(DET, cfg, xs)
+        if exc is not None:
+            ck.violation(dict(clause="raises", scenario="extreme-jump"), dict(config=cfg, stream=xs[: len(out) + 1], error=repr(exc)))
+            continue
+        ok, short = check_trace(ck, cfg, xs, out, extra=dict(scenario="level shift of 40-100 standard deviations"))
+        ck.case(dict(config=cfg, n=n, kind="extreme-jump", jump=jump), nontrivial=short, key=repr(("jump", cfg, xs)))
+        ck.count("extreme_jump_cases")
+    for _ in range(6 if not thorough else 40):
+        cfg = dict(prior_mean=0.0, prior_var=rng.choice([1.0, 4.0]), data_var=rng.choice([0.5, 1.0]), hazard=rng.choice([0.05, 0.1, 0.3]), min_num_instances=1)
+        n = rng.choice([8, 12, 16])
+        prefix = [rng.uniform(-0.5, 0.5) for _ in range(n)]
+
+        def margin(x):
+            P = reference(cfg, prefix + [x])[-1][0]
+            return math.log(max(P[:-1])) - math.log(P[-1])
+
+        target = rng.choice([1e-7, -1e-7, 3e-6])
+        lo, hi = 0.0, 12.0
+        if not (margin(lo) < target < margin(hi)):
+            continue
+        for _ in range(200):
+            mid = 0.5 * (lo + hi)
+            if margin(mid) < target:
+                lo = mid
+            else:
+                hi = mid
+        xs = prefix + [hi if target > 0 else lo]
+        out, exc, _ = run_impl(DET, cfg, xs)
+        if exc is not None:
+            continue
+        ok, short = check_trace(ck, cfg, xs, out, extra=dict(scenario="last value bisected so that the best shorter run length and the full run length differ by about 1e-7 in log-probability", log_margin=margin(xs[-1])))
+        ck.case(dict(config=cfg, n=n + 1, kind="near-margin", target=target), nontrivial=short, key=repr(("margin", cfg, xs)))
+        ck.count("near_margin_cases")
     # two detectors built from ONE configuration object, updated alternately (one of them reset in mid-stream):
     # each must keep the exact posterior of ITS OWN stream
     for _ in range(8 if not thorough else 60):
@@ -189,7 +260,11 @@ def check_trace(ck, cfg, xs, out, extra=None):
     """One implementation trace against the non-incremental reference. Returns (ok, some step had argmax != t)."""
     extra = extra or {}
     if True:
-        ref = reference(cfg, xs)
+        try:
+            ref = reference(cfg, xs)
+        except (ZeroDivisionError, OverflowError):  # every predictive density underflowed in binary64 (extreme jumps)
+            ref = reference_hp(cfg, xs)
+            ck.count("high_precision_arbitrations")
         # fast binary64 reference first; if it disagrees with the implementation anywhere, the 50-digit
         # reference decides (the float reference loses digits for extreme hazards, the code does not)
         def agrees(rf):
